@@ -61,6 +61,19 @@ def family_map(env, name, N, family):
         # Pauli frame: identity table, symbolic signs (conjugation by a Pauli operator)
         p = env.signs(name + '_sign', (2 * N,))
         return oarr(np.eye(2 * N, dtype=int)), p, True
+    if family.startswith('gate:'):
+        # concrete table of a named gate placed in the register, e.g. 'gate:CNOT:0,2' or 'gate:H:0+S:2' (product of one-qubit gates)
+        from .c11 import oracle_table
+        from .c03 import embedded_table
+        g = oarr(np.eye(2 * N, dtype=int))
+        p = oarr([0] * (2 * N))
+        for part in family[5:].split('+'):
+            nm, qs = part.split(':')
+            qs = [int(q) for q in qs.split(',')]
+            tab = oracle_table(nm if nm != 'CNOT' else ('CNOT_lt' if qs[0] < qs[1] else 'CNOT_gt'), len(qs))
+            tg, tp = embedded_table(oarr(tab[0]), oarr(tab[1]), [i in qs for i in range(N)], N)
+            g, p = ref_compose(g, p, tg, tp)
+        return g, p, True
     if family.startswith('fixed:'):
         tab = FIXED[family]
         p = env.signs(name + '_sign', (2 * N,))
@@ -197,6 +210,10 @@ def h_sequential(env, N, fam_b, fam_c, with_inverse=True):
     for i in range(2 * N):
         env.goal('string[%d]' % i, eq(o1.gs[0][i], o2.gs[0][i]))
     env.goal('phase', eq(o1.ps[0], o2.ps[0]))
+    # and against the reference (the step-by-step application uses the same kernel as compose): b first, then c
+    e1 = ref.ref_transform(g[0], p[0], bg, bp)
+    e2 = ref.ref_transform(e1[0], e1[1], cg, cp)
+    env.goal('equals_reference_b_then_c', b_and(arr_eq(o1.gs[0], e2[0]), eq(o1.ps[0], e2[1])))
     env.goal('operands_unchanged', AND([arr_eq(B.gs, bg), arr_eq(B.ps, bp), arr_eq(C.gs, cg), arr_eq(C.ps, cp)]))
     # (f) inverse of the composition is the reversed composition of the inverses
     if not with_inverse:
@@ -354,6 +371,10 @@ def jobs(tier):
     for fs in (['rotation', 'embed0', 'rotation'], ['embed1', 'rotation', 'embed0'], ['rotation', 'rotation', 'rotation']):
         J.append(dict(harness=('c04', 'h_assoc'), params=dict(N=2, fams=fs), timeout_s=300))
     J.append(dict(harness=('c04', 'h_sequential'), params=dict(N=3, fam_b='embed0', fam_c='rotation', with_inverse=False), timeout_s=300))
+    # second operands that are idle on a qubit between two active ones (named gates placed in a three-qubit register)
+    for fc in ('gate:CNOT:0,2', 'gate:CNOT:2,0', 'gate:H:0+S:2', 'gate:S:1', 'gate:CNOT:1,2'):
+        for fb in ('rotation', 'gate:CNOT:0,1'):
+            J.append(dict(harness=('c04', 'h_sequential'), params=dict(N=3, fam_b=fb, fam_c=fc, with_inverse=(fb != 'rotation')), timeout_s=300, cost=10))
     if tier == 'thorough':
         J.append(dict(harness=('c04', 'h_sequential'), params=dict(N=3, fam_b='rotation', fam_c='rotation', with_inverse=False), timeout_s=600, cost=60))
         tabs = symplectic_tables(2)
